@@ -40,6 +40,11 @@ weights / coordinates multiplied by `s`): the prediction is that of `<op>` as wr
 models are over exact weights and only compare coordinates, so a positive factor changes no
 decision of theirs; what the scaled run of the implementation does is judged by the oracle.
 
+`negzero <spec>`, `plumb <k>`, `tools`, `ctx-global`, `ctx-task`, `ctx-many <c>`, `seq` (special
+values, input types, the tools entry point, calling contexts, first-call sequences of the
+harness): the models ignore the sign of a zero, the container and numeric type of the input
+and the calling context by construction, so the prediction is again that of `<op>`.
+
 A line is `<op> => <aux…>`: `<op>` is the input the harness ran (public API), `aux` the
 float-derived data the harness read from the implementation through the `coupe::verif`
 hooks, which the models of C03/C09 take as a parameter: the rotated points for Rib
@@ -472,6 +477,13 @@ def handle (toks : List String) : String :=
     | "reuse-buf" :: r => r
     | "wscale" :: _ :: r => r
     | "cscale" :: _ :: r => r
+    | "negzero" :: _ :: r => r
+    | "plumb" :: _ :: r => r
+    | "ctx-many" :: _ :: r => r
+    | "tools" :: r => r
+    | "ctx-global" :: r => r
+    | "ctx-task" :: r => r
+    | "seq" :: r => r
     | _ => toks
   match toks with
   | algo :: _ :: hdr =>
